@@ -15,7 +15,7 @@ ASSUMPTIONS = ["the fault model is ArithmeticError raised by the user-visible KK
                "conelp answers 'unknown' for an iteration-0 failure that follows a successful start-up factorisation - both outcomes are accepted there"]
 REQUIRED_COUNTERS = ["inject.conelp.factor", "inject.conelp.solve", "inject.coneqp.factor", "inject.coneqp.solve", "inject.cpl.factor",
                      "inject.cpl.solve", "inject.cp.factor", "inject.cp.solve", "outcome.unknown", "outcome.rank-ValueError",
-                     "refusing-F.runs", "with-start-points", "coneqp.no-inequalities", "nl.zero-optimum", "nl.show-progress", "cone.show-progress"]
+                     "refusing-F.runs", "with-start-points", "coneqp.no-inequalities", "nl.zero-optimum", "nl.show-progress", "cone.show-progress", "conelp.user-defined-x-y-types"]
 
 
 def plan(tier):
@@ -221,8 +221,47 @@ def run(ctx):
         if rng.random() < 0.2:
             opts["show_progress"] = True              # the progress / termination messages are code paths too
             ctx.count("cone.show-progress")
+        custom = solver == "conelp" and rng.random() < 0.3
+        if custom:
+            # user-defined vector types for x and y (documented: xnewcopy, xdot, xaxpy, xscal, ynewcopy, ...; G and A as
+            # operators, user KKT solver): every exit of conelp has to handle them with the user's own operations
+            ctx.count("conelp.user-defined-x-y-types")
+            from cvxopt import blas, base as cbase
+
+            class Vec(object):
+                def __init__(self, m): self.m = m
+            vnew = lambda u: Vec(matrix(u.m))
+            vdot = lambda u, v: blas.dot(u.m, v.m)
+            def vaxpy(u, v, alpha=1.0): blas.axpy(u.m, v.m, alpha)
+            def vscal(alpha, u): blas.scal(alpha, u.m)
+            Gm, Am, dd_ = args["G"], args["A"], args["dims"]
+            def Gop(u, v, alpha=1.0, beta=0.0, trans="N"):
+                if trans == "N": misc.sgemv(Gm, u.m, v, dd_, trans="N", alpha=alpha, beta=beta)
+                else: misc.sgemv(Gm, u, v.m, dd_, trans="T", alpha=alpha, beta=beta)
+            def Aop(u, v, alpha=1.0, beta=0.0, trans="N"):
+                cbase.gemv(Am, u.m, v.m, trans=trans, alpha=alpha, beta=beta)
+            make0 = make
+            def make(W):
+                f_ = make0(W)
+                return lambda x, y, z: f_(x.m, y.m, z)
+            psc = {"x": Vec(ps["x"]), "s": ps["s"]} if ps else None
+            dsc = {"y": Vec(ds["y"]), "z": ds["z"]} if ds else None
+
+            def call_custom(kk):
+                try:
+                    sol_ = solvers.conelp(Vec(matrix(args["c"])), Gop, args["h"], dd_, Aop, Vec(matrix(args["b"])), primalstart=psc, dualstart=dsc,
+                                          kktsolver=kk, xnewcopy=vnew, xdot=vdot, xaxpy=vaxpy, xscal=vscal,
+                                          ynewcopy=vnew, ydot=vdot, yaxpy=vaxpy, yscal=vscal, options=opts)
+                except Exception as e_:
+                    return None, None, e_
+                for k_ in ("x", "y"):
+                    if isinstance(sol_.get(k_), Vec): sol_[k_] = sol_[k_].m
+                return sol_, None, None
+            run_ = call_custom
+        else:
+            run_ = lambda kk: sr.call_entry(solver, pr, args, kktsolver=kk, ps=ps, ds=ds, options=opts)
         base = Injector(make, 0)
-        sol0, _, exc0 = sr.call_entry(solver, pr, args, kktsolver=base, ps=ps, ds=ds, options=opts)
+        sol0, _, exc0 = run_(base)
         if exc0 is not None or sol0["status"] != "optimal":
             ctx.count("fault-free-not-optimal"); return
         F, S = base.nf, base.ns
@@ -237,13 +276,13 @@ def run(ctx):
             plan_ = keep
         for site, idx, pers in plan_:
             inj = Injector(make, 0, fail_factor=idx if site == "factor" else None, fail_solve=idx if site == "solve" else None, persistent=pers)
-            sol, _, exc = sr.call_entry(solver, pr, args, kktsolver=inj, ps=ps, ds=ds, options=opts)
+            sol, _, exc = run_(inj)
             tag = (base.tags_f if site == "factor" else base.tags_s)[idx]
             ctx.count("inject.%s.%s" % (solver, site))
             out = classify(c, solver, site + ("+persistent" if pers else ""), tag, pr, sol, exc, opts, start=start)
             c.require(inj.fired, "%s:%s:fault-not-reached" % (solver, site), "injection index %d never reached (fault-free trace had it)" % idx)
             ctx.count("tagclass.%s" % ("startup" if tag == "startup" else "iter0" if tag == 0 else "later"))
-        c.cls(solver, start, nm, d.shape_class(), "F%d" % min(F, 12))
+        c.cls(solver, start, nm, d.shape_class(), "F%d" % min(F, 12), "custom-xy" if custom else "")
 
     def nl_case(c, rng, entry):
         pr = nl.gen_cpl(rng) if entry == "cpl" else nl.gen_cp(rng)
